@@ -118,17 +118,63 @@ CONFIG = dict(
     harness=dict(pkg="signaling", test="TestVerifC13"),
     stats=c13_stats,
     nontrivial=c13_nontrivial,
-    rule="static: PRNG chains of 2-9 configurations (1-4 hosts, 0-6 backends, ids added/removed/moved/re-ordered/"
-         "changed, nested prefixes, http/https, default and other ports, duplicate/missing/broken entries, common "
-         "secret); etcd: 2-30 put/delete events over 2-7 keys incl. host moves and undecodable/invalid values; "
-         "probe set = every url seen, its prefixes and extensions, scheme and port variants; a case is non-trivial if "
+    rule="corpus of 11 witness cases first; static: PRNG chains of 2-9 configurations (1-4 hosts, 0-6 backends, ids "
+         "added/removed/moved/re-ordered/changed, nested prefixes, http/https, default and other ports, duplicate / "
+         "missing / broken / emptied entries, common secret); etcd: 2-30 put/delete events over 2-7 keys incl. host "
+         "moves and undecodable/invalid values; concurrent variants (2-5 lookup goroutines during 20 passes of the "
+         "mutations, watchdog 8 s); probe set = every url seen, its prefixes and extensions, scheme / port / "
+         "dot-segment variants, probed after every mutation (subset) and at the end (all); a case is non-trivial if "
          "it has >= 2 mutations and both an accepted and a rejected lookup; distinct = distinct op lists",
-    trusted_base=[],
-    assumptions=[],
+    trusted_base=[
+        "net/url (url.Parse, Hostname, Port, String) and encoding/json: the harness hands the model what the standard "
+        "library makes of every configured / looked-up url (parse ok, normalised text, host, scheme, dot segments) and "
+        "of every etcd value (decodes or not, fields); the default-port and trailing-slash normalisation is "
+        "re-implemented in the harness with net/url only, independently of the code under test",
+        "goconf (option lookup; ids are lower-case, no %(..)s / $(..) substitution in generated values)",
+        "sync.RWMutex behaves as modelled in Model/RWLock.lean (writer-preferring: a pending Lock blocks new RLocks; "
+        "RUnlock and Unlock never block); Go runtime scheduling is any interleaving of lock calls",
+        "critical sections of the storages call nothing that blocks on anything but leaf locks (log, prometheus "
+        "gauges, a non-blocking channel send)",
+        "etcd hands a starting server the current key/value pairs (any order: the theorem holds for every order; the "
+        "harness uses key order as a range query does)",
+    ],
+    assumptions=[
+        "static chains stay in \"backends\" mode: no configuration sets allowall / allowed (Reload refuses to switch "
+        "to the old-style modes and logs it); configurations whose backends value is empty or incomplete are included",
+        "etcd: the storage is driven through EtcdKeyUpdated / EtcdKeyDeleted directly; the etcd client, its watch loop, "
+        "reconnects and revision handling are not modelled",
+        "session counting per Backend object (Backend.sessions survives a reload only for unchanged entries) is not "
+        "part of this property",
+        "the concurrency part is a proof about the lock model plus lock programs extracted syntactically (every path; "
+        "loops 0/1 times; function literals and go statements not followed); real goroutine runs with a watchdog are "
+        "testing, they cannot show absence of deadlock by themselves",
+        "lookups themselves are not claimed panic-free (an empty url text on a host configured with an empty host name "
+        "would index out of range in getBackendLocked; unreachable through hello validation, not part of C13)",
+    ],
 )
 
 MANIFEST = dict(
-    text="(in progress)",
-    note="",
-    technique="Lean 4 proof + regenerated lock programs + differential correspondence",
+    text="Machine-checked Lean 4 theorems about a model of the backend table (static storage: start, Reload = "
+         "RemoveBackendsForHost + UpsertHost; etcd storage: EtcdKeyUpdated / EtcdKeyDeleted with keyInfos; lookup = "
+         "host table, scheme rule, first prefix match, dot-segment refusal): for every chain of configurations (lists "
+         "of backends, and raw files with duplicate / missing / incomplete ids) every lookup answers exactly as after "
+         "a fresh start from the last one; for every history of etcd put/delete events (invalid values, keys moving "
+         "host) the table is the canonical table of the final key/value map, hence equals a fresh start for every "
+         "order in which a starting server receives the pairs; answers come only from the final configuration "
+         "(removed / moved urls are rejected); Reload is total; the model's answers satisfy the judge written from "
+         "the statement. Concurrency: Go's writer-preferring RWMutex as a transition system; the lock programs of "
+         "all storage entry points are regenerated from the source (go/ast walk over every path, following calls) and "
+         "must be well-bracketed and non-nested by `decide`; then for any number of threads running any sequence of "
+         "those calls: no deadlock, every run terminates in the final configuration, writer excludes everyone; the "
+         "nested RLock of the pinned tree is a proved deadlock witness. Tied to the code by the regenerated facts and "
+         "by a differential run of the real BackendConfiguration / backendStorageStatic / backendStorageEtcd against "
+         "a fresh instance of the real code and against the model, incl. lookups racing reloads under a watchdog. "
+         "Seven defects found on the pinned tree (nested read lock, UpsertHost panic, reload order, etcd host move, "
+         "etcd invalid update, etcd history order, reload of an emptied configuration) are each fixed by one commit.",
+    note="Trusted: Lean kernel, extractor, harness + comparison, net/url, encoding/json, goconf, the RWMutex model. "
+         "Hypotheses: backends mode only (no allowall/allowed), etcd client/watch loop not modelled, deadlock freedom "
+         "is of the lock model with extracted lock programs.",
+    technique="Lean 4 proof (pointwise table equivalence by induction over chains; canonical-form invariant for etcd "
+              "histories; invariant + progress + measure for the RWMutex transition system) + regenerated facts "
+              "(lock programs, scheme rule, partial operations on the reload path) + differential correspondence",
 )
